@@ -44,7 +44,7 @@ ASSUMPTIONS = ["from_data builds its own requantiser (ComplexQuantizer defaults:
 PROBES = ["input_by_refguppi", "input_by_setigen", "four_bit", "input_unpadded", "input_aligned_header", "multi_file_input",
           "last_file_partial", "length_longer_than_input", "length_shorter_than_input", "length_unspecified",
           "digitize_on", "unseeded_estimate_framing_only", "retry_after_fault", "array_source", "listing_permuted",
-          "second_injection_same_backend"]
+          "second_injection_same_backend", "per_stream_digitiser_targets"]
 
 
 def gen_input_header_extras(rng):
@@ -83,6 +83,8 @@ def generate(rng, tier):
     return {"seams": {"clock_origin": 1.7e9 + rng.randrange(10 ** 6), "clock_jitter_seed": rng.randrange(1 << 20),
                       "entropy_salt": rng.randrange(1 << 20), "scratch": "c14", "listing": rng.choice(["sorted", "reverse", rng.randrange(1, 1 << 16)])},
             "ant": ant, "el": el, "be": be, "input": inp,
+            "dig_fwhms": ([[rng.choice([32, 12, 8, 20]) for _ in range(ant["pols"])] for _ in range(ant["n_ant"])]
+                          if rng.random() < 0.35 else None),
             "from_data": {"num_subblocks": rng.randint(1, be["W"] + 3), "estimate_seed": rng.choice([None, rng.randrange(1 << 30), rng.randrange(1 << 30), rng.randrange(1 << 30)]),
                           "factor": rng.choice([50, 200, 1000])},
             "ops": ops}
@@ -191,10 +193,11 @@ def expected_output(sc, in_blocks, reqs, digitize, cstds, n_out, ctx):
     h = mv.ref_window(T, B, el["window"])
     counts = W.chunk_spectra(reqs, T, B)
     zin = [guppi.decode_block(b["data"], obsnchan, ant["pols"], bits) for b in in_blocks[:n_out]]
-    dig_tstd = el["dig"]["fwhm"] / mv.FWHM
     out = {}
+    fw = sc.get("dig_fwhms")
     for a in range(ant["n_ant"]):
         for p in range(ant["pols"]):
+            dig_tstd = (fw[a][p] if fw else el["dig"]["fwhm"]) / mv.FWHM
             chunks = [np.asarray(r[a][p]) for r in reqs]
             tie_risk = False
             if digitize:
@@ -272,6 +275,16 @@ def execute(sc, ctx):
     antenna = W.build_antenna(ant)
     log = W.RequestLog(antenna, ctx)
     dig, fb, _ = W.build_elements(el)
+    fw = sc.get("dig_fwhms")
+    if fw:
+        # documented alternative: a 2-D list of quantisers / filterbanks of shape (num_antennas, num_pols)
+        import copy as _copy
+        import setigen.voltage as _sv
+        dig = [[_sv.RealQuantizer(target_fwhm=fw[a][p], num_bits=el["dig"]["bits"], stats_calc_period=el["dig"]["period"],
+                                  stats_calc_num_samples=el["dig"]["ncalc"]) for p in range(ant["pols"])] for a in range(ant["n_ant"])]
+        fb = [[_copy.deepcopy(fb) for p in range(ant["pols"])] for a in range(ant["n_ant"])]
+        if len({x for row in fw for x in row}) > 1:
+            ctx.hit("per_stream_digitiser_targets")
     seams.listing = sc["seams"].get("listing", "sorted")
     if seams.listing != "sorted" and len(files) > 1:
         ctx.hit("listing_permuted")
